@@ -538,6 +538,8 @@ class Obl:
                     - set(s.get('allow_no_body', [])))
         if nb:
             return self.undecided('unintended havoc: no body for ' + ','.join(nb))
+        allowed_nb = set(s.get('allow_no_body', []))
+        results = [r for r in results if not ('.no-body.' in r.get('property', '') and r['property'].split('.no-body.')[1] in allowed_nb)]
         canary = [r for r in results if CANARY in r.get('description', '') and r.get('property', '').startswith(s['entry'] + '.')]
         others = [r for r in results if CANARY not in r.get('description', '')]
         self.res['cbmc_properties'] = len(others)
